@@ -87,6 +87,25 @@ impl<T: Bounded> BVH<T> {
 
         let mut id: NodeId = 0;
         let ll = elements.len();
+        #[cfg(cteenergymodel_verif)]
+        if crate::verif_trace::enabled() {
+            let boxes: Vec<String> = elements
+                .iter()
+                .map(|e| {
+                    let b = e.aabb();
+                    format!(
+                        "[{},{},{},{},{},{}]",
+                        b.min.x, b.min.y, b.min.z, b.max.x, b.max.y, b.max.z
+                    )
+                })
+                .collect();
+            crate::verif_trace::emit(&format!(
+                "\"ev\":\"BvhStart\",\"n\":{},\"max\":{},\"boxes\":[{}]",
+                ll,
+                max_num_elements,
+                boxes.join(",")
+            ));
+        }
         let (left, right) = if ll > max_num_elements {
             BVH::partition_elements_by_centroid(elements)
         } else {
@@ -95,6 +114,13 @@ impl<T: Bounded> BVH<T> {
         // Si la partición deja un lado vacío (p.e. centroides coincidentes) no se puede dividir
         if !left.is_empty() && !right.is_empty() {
             // Guardamos nodo inicial (da igual el lado)
+            #[cfg(cteenergymodel_verif)]
+            crate::verif_trace::emit(&format!(
+                "\"ev\":\"BvhSplit\",\"id\":0,\"n\":{},\"nl\":{},\"nr\":{}",
+                ll,
+                left.len(),
+                right.len()
+            ));
             node_list.push(TreeElement(0, Node, L, None, None));
             // Nodos pendientes
             pending.push(TreeElement(id + 2, Node, R, Some(id), Some(right)));
@@ -114,6 +140,14 @@ impl<T: Bounded> BVH<T> {
                 // Si la partición deja un lado vacío (p.e. centroides coincidentes) no se puede dividir
                 if !left.is_empty() && !right.is_empty() {
                     // Completamos un nodo intermedio y dejamos pendientes sus ramas
+                    #[cfg(cteenergymodel_verif)]
+                    crate::verif_trace::emit(&format!(
+                        "\"ev\":\"BvhSplit\",\"id\":{},\"n\":{},\"nl\":{},\"nr\":{}",
+                        c_id,
+                        cll,
+                        left.len(),
+                        right.len()
+                    ));
                     node_list.push(TreeElement(c_id, Node, c_side, c_maybe_parent_id, None));
                     pending.push(TreeElement(id + 2, Node, R, Some(c_id), Some(right)));
                     pending.push(TreeElement(id + 1, Node, L, Some(c_id), Some(left)));
@@ -122,6 +156,12 @@ impl<T: Bounded> BVH<T> {
                     // Completamos un nodo terminal
                     let mut c_elems = left;
                     c_elems.extend(right);
+                    #[cfg(cteenergymodel_verif)]
+                    crate::verif_trace::emit(&format!(
+                        "\"ev\":\"BvhLeaf\",\"id\":{},\"n\":{}",
+                        c_id,
+                        c_elems.len()
+                    ));
                     node_list.push(TreeElement(
                         c_id,
                         Leaf,
@@ -134,6 +174,11 @@ impl<T: Bounded> BVH<T> {
         } else {
             let mut elements = left;
             elements.extend(right);
+            #[cfg(cteenergymodel_verif)]
+            crate::verif_trace::emit(&format!(
+                "\"ev\":\"BvhLeaf\",\"id\":0,\"n\":{}",
+                elements.len()
+            ));
             node_list.push(TreeElement(0, Leaf, L, None, Some(elements)));
         }
         node_list
@@ -156,6 +201,11 @@ impl<T: Bounded> BVH<T> {
             // Con nodo intermedio elems es None, y tiene datos en nodos terminales
             let TreeElement(id, _type, side, maybe_parent_id, elems) = node_list.pop().unwrap();
             let parent_id = maybe_parent_id.unwrap();
+            #[cfg(cteenergymodel_verif)]
+            crate::verif_trace::emit(&format!(
+                "\"ev\":\"BvhAttach\",\"id\":{},\"parent\":{},\"side\":\"{:?}\",\"ty\":\"{:?}\"",
+                id, parent_id, side, _type
+            ));
             let parent_node = pending.entry(parent_id).or_insert(BVHNode::Node {
                 aabb: AABB::default(),
                 left: None,
@@ -197,6 +247,15 @@ impl<T: Bounded> BVH<T> {
             }
             _ => completed.remove(&0_usize),
         };
+        #[cfg(cteenergymodel_verif)]
+        crate::verif_trace::emit(&format!(
+            "\"ev\":\"BvhFinish\",\"root\":\"{}\"",
+            match &root {
+                None => "none",
+                Some(BVHNode::Leaf { .. }) => "leaf",
+                Some(BVHNode::Node { .. }) => "node",
+            }
+        ));
         Self::new(root)
     }
 
